@@ -50,7 +50,11 @@ def mutate_nb(r, nb):
         k = r.randint(0, 5)
         cells = nb['cells']
         if k == 0 or not cells:
-            cells.insert(r.randint(0, len(cells)), gen_cell(r, minor, 10 + len(cells)))
+            pos = r.randint(0, len(cells)); new = gen_cell(r, minor, 10 + len(cells))
+            used = {c.get('id') for c in cells}; n = 0
+            while 'id' in new and new['id'] in used:        # cell ids are unique in a valid 4.5 notebook (nbformat re-ids duplicates at random on every read)
+                n += 1; new['id'] = '%s%d' % (new['id'].rstrip('0123456789') if n > 1 else new['id'], n)
+            cells.insert(pos, new)
         elif k == 1:
             del cells[r.randrange(len(cells))]
         elif k == 2:
